@@ -226,6 +226,8 @@ class Feature(tuple, metaclass=abc.ABCMeta):
             Original feature if instance of our type or raising otherwise.
         """
         feature = cast(feature)
+        if isinstance(feature, Comparison.Pythonic):  # materialize the lazy ==/< proxy into the actual comparison
+            feature = feature.operable
         if not isinstance(feature, cls):
             raise _exception.GrammarError(f'{feature} not an instance of a {cls.__name__}')
         return feature
